@@ -41,15 +41,20 @@ CRASH_RULE = ("cases = generated API histories (as for C01..C12); the parent run
               "the new state once the call had returned) and the follow-up commit must yield the reference root.")
 
 
-def CRASH(mode, focus, q, t, steps=2, shards_q=4, big=False, nops=8, segsize=0):
-    args = ["--mode", mode, "--focus", focus, "--nops", str(nops), "--steps", str(steps)] + (["--big"] if big else []) + (["--segsize", str(segsize)] if segsize else [])
+NOMT_MODEL = "/verif/lean/.lake/build/bin/nomt_model"
+
+
+def CRASH(mode, focus, q, t, steps=2, shards_q=4, big=False, nops=8, segsize=0, wal=False):
+    # wal=True: every crashed directory that holds a redo log is also recovered on a copy by the real bitbox `DB::open` and the result
+    # compared with the Lean WAL reader + redo (`walredo`, Store/Wal*.lean) applied to the crashed hash table
+    args = ["--mode", mode, "--focus", focus, "--nops", str(nops), "--steps", str(steps)] + (["--big"] if big else []) + (["--segsize", str(segsize)] if segsize else []) + (["--wal-driver", NOMT_MODEL] if wal else [])
     return {"cmd": "crash", "mode": "image", "args": args, "cases": {"quick": max(1, q // shards_q), "thorough": max(1, t // 16)}, "shards": {"quick": shards_q, "thorough": 16}, "per_shard_cases": True}
 
 # directed histories (corpus, fixed seed): 8 KiB rollback segments, six fat commits (one segment each), then rollback(5) / prune + rollback-all,
 # every event of every operation; "nested" additionally crashes at every event of every recovery, each probe on a fresh copy of the crashed image (found F16)
 def SCRIPTED(mode):
     foci = ["script-rollback-multi-segment"] if mode == "nested" else ["script-rollback-multi-segment", "script-prune-then-rollback-all", "script-elision-threshold"]
-    return [dict(CRASH(mode, f, 1, 1, steps=12, shards_q=1, segsize=8192), fixed_seed=1, corpus=True, shards={"quick": 1, "thorough": 1}, cases={"quick": 1, "thorough": 1}) for f in foci]
+    return [dict(CRASH(mode, f, 1, 1, steps=12, shards_q=1, segsize=8192, wal=(f == "script-elision-threshold")), fixed_seed=1, corpus=True, shards={"quick": 1, "thorough": 1}, cases={"quick": 1, "thorough": 1}) for f in foci]
 
 # the real FreeList (allocate per index + finish) and the real ProbeSequence / allocate_bucket, driven through nomt::verif_api,
 # against the Lean free-list / probing models (driver mode `alloc`) and harness-side oracles (conservation, placement, encoding)
@@ -79,6 +84,34 @@ CRASH_IMAGES_RULE = (" Crash images: the crash / power-loss enumeration of C03 /
                      "page-elision threshold) hands every directory that recovered to a state the API reports consistently to the same monitor (`check <dir> <expected>`), so that the image after WAL "
                      "replay / rollback-log trimming + one more commit is decoded too (counters recovered_images_checked / _ok in the evidence).")
 
+# the real WalBlobBuilder / WalBlobReader / PageDiff / bitbox recovery (hook H5) against the Lean WAL model (driver mode `wal`)
+WAL_RUN = {"cmd": "wal", "mode": "wal", "cases": {"quick": 600, "thorough": 16000}, "shards": {"quick": 4, "thorough": 16}}
+WAL_RULE = (" WAL runs: generated entry sequences (0..many entries, clears and updates mixed, diffs with 0 / 1 / 126 changed slots and bits at the word boundary 63 / 64, bucket indices and "
+            "sequence numbers at the u64 / u32 limits, the END tag aimed at page boundaries, builder reuse, small mappings that must grow) through the REAL WalBlobBuilder — bytes compared byte for "
+            "byte with the Lean encoder — and the REAL WalBlobReader — entries / error verdict compared with the Lean reader — plus 12 malformed kinds (truncated, bad tag, padding bits set, empty, "
+            "garbage after END); PageDiff operations (set / join / pack / unpack / from_bytes); `recover`: the real bitbox DB::open on generated hash-table files and WALs (incl. partial write-outs, stale "
+            "and corrupt logs) vs the Lean redo. Oracles: decode(encode x) = x on the real code, blob length a page multiple, redo reproduces the intended page, redo twice = once.")
+# overlay index / value / value_iter on chains built from explicit change maps, the real BeatreeIterator on hand-built leaves and the
+# overlay / disk merges of seek through real sessions (hook H6) against the Lean mirrors (driver mode `ovl`)
+OVL_RUN = {"cmd": "overlay-index", "mode": "ovl", "cases": {"quick": 400, "thorough": 4000}, "shards": {"quick": 4, "thorough": 16}}
+OVL_RULE = (" overlay-index: 5/8 overlay-chain cases (chains of 0..8 overlays over a dense key universe built from explicit change maps with the REAL Overlay / LiveOverlay: ancestor lists exact / short / long / "
+            "wrong / reordered, commits and drops of ancestors, lookups of every key and value_iter over ranges whose bounds are on, just below and just above keys), 2/8 BeatreeIterator cases (staging maps merged "
+            "with hand-built leaves), 1/8 real-store seek cases (overlay insertions / deletions merged with on-disk leaves, read off real path proofs); every answer vs the Lean mirror and vs BTreeMap folds.")
+# the real bit operations of the B-tree (bit_ops.rs) and the real BranchNodeBuilder / get_key on caller-supplied pages (hook H7) against
+# the Lean mirrors (driver mode `bitops`)
+BITOPS_RUNS = [{"cmd": "bitops", "mode": "bitops", "cases": {"quick": 40000, "thorough": 1000000}, "shards": {"quick": 4, "thorough": 16}},
+               {"cmd": "bitops-node", "mode": "bitops", "cases": {"quick": 1200, "thorough": 30000}, "shards": {"quick": 4, "thorough": 16}}]
+BITOPS_RULE = (" bitops: per case 16 lines through the REAL bit_ops.rs (first / last chunk masks, prefix_len, separator_len, separate, reconstruct_key, bitwise_memcpy) on inputs aimed at the 64-bit chunk "
+               "boundaries (bit offsets 0..8, lengths 0 / 1 / 63 / 64 / 65 / ..., keys sharing 0..255 bits, separators with many trailing zero bytes) and outside the documented contract (panic / silent garbage "
+               "must be predicted by the mirror); bitops-node: the REAL BranchNodeBuilder (new / push / push_chunk with every prefix relation) and get_key on caller-supplied pages, page bytes compared with the "
+               "Lean builder mirror byte for byte; oracle: naive bit-by-bit implementations in the harness.")
+# the real SegmentedLog on a scratch directory, the delta codec and Rollback::read (hook H8) against the Lean model of the seglog as a
+# directory of segment files (driver mode `seglog`)
+SEGLOG_RUN = {"cmd": "seglog", "mode": "seglog", "cases": {"quick": 150, "thorough": 1500}, "shards": {"quick": 4, "thorough": 16}, "per_shard_cases": False}
+SEGLOG_RULE = (" seglog: random operation sequences on the REAL SegmentedLog in a scratch directory (append with payload sizes around the segment size: roll-overs, multi-segment prunes, single-record segments; "
+               "prune_oldest / prune_recent; close and reopen with chosen live ranges): after EVERY operation the directory listing (file names, sizes, FNV-1a of the bytes) and the records returned by reopening with the "
+               "current live range must equal the Lean model; crash images built through the I/O hook (the k-th effect of an operation and every later one fail; torn appends; lost unlinks) must be opened by the real "
+               "code as the model predicts; Delta::encode / decode and Rollback::read (`rbread`) on generated and malformed inputs.")
 IMG_RUN = {"cmd": "image", "mode": "image", "cases": {"quick": 24, "thorough": 400}, "shards": {"quick": 8, "thorough": 16}}
 # directed replay (corpus): history 18 of image seed 1000 — 1616 fat-valued keys, half of them under a 200-bit common prefix;
 # the commit that splits the branch node writes a separator whose last bit is lost (see KNOWN finding candidate F13 in the report)
@@ -125,8 +158,9 @@ PROPS = {
         "tags": ['C16', 'C01'],
         "runs": IMG_CORPUS + [{"cmd": "image-prefix-shrink", "mode": "image", "cases": {"quick": 1, "thorough": 1}, "corpus": True},
                               {"cmd": "image-prefix-tail", "mode": "image", "cases": {"quick": 1, "thorough": 1}, "corpus": True},
-                              {"cmd": "image-branch-ops", "mode": "image", "cases": {"quick": 8, "thorough": 160}, "shards": {"quick": 8, "thorough": 16}}, dict(IMG_RUN)] + CRASH_IMAGES,
-        "rule": IMG_RULE + CRASH_IMAGES_RULE,
+                              {"cmd": "image-script", "mode": "image", "args": ["--focus", "script-freelist-reopen"], "cases": {"quick": 1, "thorough": 1}, "corpus": True},
+                              {"cmd": "image-branch-ops", "mode": "image", "cases": {"quick": 8, "thorough": 160}, "shards": {"quick": 8, "thorough": 16}}, dict(IMG_RUN), dict(WAL_RUN)] + BITOPS_RUNS + CRASH_IMAGES,
+        "rule": IMG_RULE + CRASH_IMAGES_RULE + WAL_RULE + BITOPS_RULE,
         "trusted_base": IMG_TB, "assumptions": IMG_ASSUME,
     },
     "C19": {
@@ -134,6 +168,7 @@ PROPS = {
         "runs": [{"cmd": "image-leak", "mode": "image", "cases": {"quick": 1, "thorough": 1}, "corpus": True, "leaks_fail": True},
                  {"cmd": "image-cycles", "mode": "image", "args": ["--cycles", "10", "--keys", "300"], "cases": {"quick": 1, "thorough": 1}, "corpus": True, "leaks_fail": True},
                  {"cmd": "image-cycles", "mode": "image", "args": ["--cycles", "8", "--keys", "2500"], "cases": {"quick": 0, "thorough": 1}, "corpus": True, "leaks_fail": True, "thorough_only": True},
+                 {"cmd": "image-script", "mode": "image", "args": ["--focus", "script-freelist-reopen"], "cases": {"quick": 1, "thorough": 1}, "corpus": True, "leaks_fail": True},
                  dict(IMG_RUN, leaks_fail=True), dict(ALLOC_FL), dict(ALLOC_PROBE)],
         "rule": IMG_RULE + ALLOC_RULE + " C19 (accounting): for ln and bbn every page number in [1, bump) must be in use by the decoded state (leaf / overflow / branch) or tracked by the "
                 "free list (free-list page or listed free page), and no page may be both; the driver prints ln_leaked / bbn_leaked per snapshot and any non-zero value is reported as "
@@ -183,25 +218,27 @@ PROPS = {
         "trusted_base": API_TB, "assumptions": API_ASSUME,
     },
     "C05": {
-        "lines": ['prove', 'pshash', 'psnext', 'psalloc', 'pslookup'],
+        "lines": ['prove', 'pshash', 'psnext', 'psalloc', 'pslookup', 'iter', 'bti', 'leaffetch', 'seeknode'],
         "tags": ['C05'],
-        "runs": DB_SCRIPT(["script-elision-threshold"]) + [DB("kv", 120, 1200, nops=14), DB("overlay", 80, 800, nops=14), DB("overlay", 120, 1200, nops=16, big=True), DB("reopen", 60, 600, nops=14), DB("kv", 4, 40, nops=14, scale=100, shards_q=4), dict(ALLOC_PROBE), dict(ALLOC_LOOKUP)],
-        "rule": DB_RULE + " C05: Session::prove for present keys, absent keys diverging from a present key at interesting depths (page boundaries 6k-1..6k+1, just below the terminal, 246..255) and random keys, on plain / overlay sessions, cold caches after reopen; the proof object must equal the Lean proveSpec (terminal + every sibling) and verify + confirm the session's view with the real verifier.",
+        "runs": DB_SCRIPT(["script-elision-threshold"]) + [DB("kv", 120, 1200, nops=14), DB("overlay", 80, 800, nops=14), DB("overlay", 120, 1200, nops=16, big=True), DB("reopen", 60, 600, nops=14), DB("kv", 4, 40, nops=14, scale=100, shards_q=4), dict(ALLOC_PROBE), dict(ALLOC_LOOKUP), dict(OVL_RUN)],
+        "rule": DB_RULE + OVL_RULE + " C05: Session::prove for present keys, absent keys diverging from a present key at interesting depths (page boundaries 6k-1..6k+1, just below the terminal, 246..255) and random keys, on plain / overlay sessions, cold caches after reopen; the proof object must equal the Lean proveSpec (terminal + every sibling) and verify + confirm the session's view with the real verifier.",
         "trusted_base": API_TB, "assumptions": API_ASSUME,
     },
     "C09": {
-        "lines": ['rollback', 'root', 'dread', 'seqn', 'reopen', 'commit', 'trycommit'],
+        "lines": ['rollback', 'root', 'dread', 'seqn', 'reopen', 'commit', 'trycommit',
+                  'append', 'close', 'crash', 'deltadec', 'deltaenc', 'new', 'open', 'probe', 'pruneold', 'prunerecent', 'rbread', 'reprobe'],
         "tags": ['C09', 'C01', 'C02'],
         "runs": DB_SCN(["stale-nonblocking-then-rollback", "reopen-resurrects-pruned-delta", "rollback-all-then-reopen", "rollback-reopen-rollback-reopen", "overwrite-huge-value-with-rollback"]) + [
-            DB("rollback", 200, 2000, nops=18), DB("rollback", 120, 1200, nops=20, segsize=8192), DB("general", 80, 800, nops=16, big=True), CHURN],
-        "rule": DB_RULE + " C09 focus: max_rollback_log_len in {1,2,3,5}; rollback(n) with n in {0,1,2,len,len+1}; rollbacks after reopen, after stale commits, over overlay commits and large values; the oracle keeps the previous committed maps.",
+            DB("rollback", 200, 2000, nops=18), DB("rollback", 120, 1200, nops=20, segsize=8192), DB("general", 80, 800, nops=16, big=True), CHURN, dict(SEGLOG_RUN)],
+        "rule": DB_RULE + SEGLOG_RULE + " C09 focus: max_rollback_log_len in {1,2,3,5}; rollback(n) with n in {0,1,2,len,len+1}; rollbacks after reopen, after stale commits, over overlay commits and large values; the oracle keeps the previous committed maps.",
         "trusted_base": API_TB, "assumptions": API_ASSUME + ["segment roll-over and pruning of the rollback log are reached through the cfg(nomt_verif) segment-size override (8 KiB segments); the 64 MiB default is not reached by quick runs"],
     },
     "C11": {
-        "lines": ['begin', 'read', 'prove', 'finish', 'overlay', 'ocommit', 'otrycommit', 'root', 'odrop', 'sdrop', 'dread'],
+        "lines": ['begin', 'read', 'prove', 'finish', 'overlay', 'ocommit', 'otrycommit', 'root', 'odrop', 'sdrop', 'dread',
+                  'live', 'val', 'page', 'commit', 'drop', 'dropl', 'pstatus', 'reset', 'seeknode', 'iter'],
         "tags": ['C11', 'C01', 'C02', 'C05'],
-        "runs": DB_SCN(["rejected-overlay-marks-committed"]) + [DB("overlay", 200, 2000, nops=18), DB("general", 60, 600, nops=16)],
-        "rule": DB_RULE + " C11 focus: overlay trees (chains, sibling forks, dropped and committed ancestors), sessions on every live fork, wrong / incomplete / reordered ancestor lists, in-order and out-of-order overlay commits.",
+        "runs": DB_SCN(["rejected-overlay-marks-committed"]) + [DB("overlay", 200, 2000, nops=18), DB("general", 60, 600, nops=16), dict(OVL_RUN)],
+        "rule": DB_RULE + OVL_RULE + " C11 focus: overlay trees (chains, sibling forks, dropped and committed ancestors), sessions on every live fork, wrong / incomplete / reordered ancestor lists, in-order and out-of-order overlay commits.",
         "trusted_base": API_TB, "assumptions": API_ASSUME,
     },
     "C12": {
@@ -214,13 +251,13 @@ PROPS = {
     # ---------------- crash / power-loss / fault enumeration (harness/src/crash.rs + cfg(nomt_verif) I/O hook) ----------------
     "C03": {
         "exclude_tags": ["C04", "C17"],
-        "runs": [CRASH("crash", "general", 6, 60, steps=2, shards_q=6), CRASH("crash", "rollback", 3, 30, steps=2, shards_q=3), CRASH("crash", "rollback", 3, 30, steps=2, shards_q=3, nops=12, segsize=8192),
+        "runs": [dict(WAL_RUN), dict(SEGLOG_RUN), CRASH("crash", "general", 6, 60, steps=2, shards_q=6, wal=True), CRASH("crash", "rollback", 3, 30, steps=2, shards_q=3), CRASH("crash", "rollback", 3, 30, steps=2, shards_q=3, nops=12, segsize=8192),
                  CRASH("nested", "general", 2, 20, steps=1, shards_q=2), CRASH("crash", "kv", 2, 20, steps=1, shards_q=2, big=True)] + SCRIPTED("nested") + SCRIPTED("crash"),
-        "rule": CRASH_RULE + " C03: process crash (every issued effect stays) at EVERY event index of the chosen operations (session commits, overlay commits, rollbacks), plus nested crashes at every event of the recovery itself (each probe on a fresh copy of the crashed directory), and two directed multi-segment rollback histories with 8 KiB rollback segments. distinct & non-trivial = distinct (operation, event index strictly inside the operation, variant) triples.",
+        "rule": CRASH_RULE + WAL_RULE + SEGLOG_RULE + " C03: process crash (every issued effect stays) at EVERY event index of the chosen operations (session commits, overlay commits, rollbacks), plus nested crashes at every event of the recovery itself (each probe on a fresh copy of the crashed directory), and two directed multi-segment rollback histories with 8 KiB rollback segments. distinct & non-trivial = distinct (operation, event index strictly inside the operation, variant) triples.",
         "trusted_base": DISK_TB, "assumptions": DISK_ASSUME,
     },
     "C04": {
-        "runs": [CRASH("power", "general", 4, 40, steps=2, shards_q=4), CRASH("power", "rollback", 2, 20, steps=2, shards_q=2), CRASH("power", "rollback", 4, 40, steps=3, shards_q=4, nops=12, segsize=8192), CRASH("power", "kv", 2, 20, steps=1, shards_q=2, big=True),
+        "runs": [CRASH("power", "general", 4, 40, steps=2, shards_q=4, wal=True), CRASH("power", "rollback", 2, 20, steps=2, shards_q=2), CRASH("power", "rollback", 4, 40, steps=3, shards_q=4, nops=12, segsize=8192), CRASH("power", "kv", 2, 20, steps=1, shards_q=2, big=True),
                  CRASH("nested-power", "general", 4, 40, steps=1, shards_q=4), CRASH("nested-power", "rollback", 2, 20, steps=1, shards_q=2, nops=12, segsize=8192)] + SCRIPTED("power") + ORDER_RUNS,
         "rule": CRASH_RULE + ORDER_RULE + " C04: at every event index the child reverts un-fsynced effects before dying: all of them, a seeded random half, and each single one (all single-loss subsets when <= 6 are pending, else a rotating single loss / single survivor); an effect counts as synced only if it COMPLETED before an fsync of its file was ISSUED and that fsync completed. Creates / unlinks of one directory are lost as a suffix in issue order (ordered metadata journal), data pages as arbitrary subsets. nested-power: a process crash at every event, then a power loss (all / a random half of the recovery's own un-fsynced effects) at every event of the recovery (found F17).",
         "trusted_base": DISK_TB, "assumptions": DISK_ASSUME + ["4 KiB page atomicity; tmpfs stands in for the device and the hook's journal for the page cache", "ordered metadata journal: creates / unlinks of one directory reach the disk in issue order (a suffix of the un-synced ones is lost), as on ext4 / xfs / btrfs / apfs"],
@@ -235,8 +272,8 @@ PROPS = {
     },
     "C10": {
         "tags": ['C10', 'C01', 'C02', 'C05', 'C09'],
-        "runs": DB_SCN(["reopen-resurrects-pruned-delta", "rollback-all-then-reopen", "rollback-reopen-rollback-reopen"]) + [DB("reopen", 200, 2000, nops=18), DB("reopen", 6, 60, nops=16, big=True, scale=50, shards_q=6), DB("rollback", 60, 600, nops=16), DB("reopen", 80, 800, nops=18, segsize=8192),
-                 CRASH("crash", "reopen", 2, 20, steps=1, shards_q=2), CHURN, dict(ALLOC_LOOKUP)],
+        "runs": DB_SCN(["reopen-resurrects-pruned-delta", "rollback-all-then-reopen", "rollback-reopen-rollback-reopen"]) + DB_SCRIPT(["script-freelist-reopen"]) + [DB("reopen", 200, 2000, nops=18), DB("reopen", 6, 60, nops=16, big=True, scale=50, shards_q=6), DB("rollback", 60, 600, nops=16), DB("reopen", 80, 800, nops=18, segsize=8192),
+                 CRASH("crash", "reopen", 2, 20, steps=1, shards_q=2), CHURN, dict(ALLOC_LOOKUP), dict(SEGLOG_RUN)],
         "rule": DB_RULE + ALLOC_LOOKUP_RULE + " C10 focus: the handle is dropped and reopened (with an independently drawn runtime configuration: workers, cache sizes, io workers, warm-up, prepopulation, upper levels) at random positions, up to half of all steps; after every reopen root, sync_seqn, sampled values, hash_table_utilization().occupied (must equal the pre-close value) and all later commits / rollbacks are compared with a model that ignores close/open.",
         "trusted_base": API_TB, "assumptions": API_ASSUME + ["open retried for up to 5 s when the old handle's directory lock is still held by a background thread (that delay is C20's subject)"],
     },
@@ -272,7 +309,8 @@ PROPS = {
         "assumptions": ["the monitor reads the pre-image through decoders that were themselves validated on every snapshot by C16's run", "worker interleavings are whatever the runs exhibit"],
     },
     "C15": {
-        "runs": [{"cmd": "stress", "args": ["--millis", "600"], "cases": {"quick": 2, "thorough": 8}, "shards": {"quick": 4, "thorough": 16}, "per_shard_cases": True}],
+        "runs": [{"cmd": "locks-scenarios", "cases": {"quick": 1, "thorough": 1}, "corpus": True},
+                 {"cmd": "stress", "args": ["--millis", "600"], "cases": {"quick": 2, "thorough": 8}, "shards": {"quick": 4, "thorough": 16}, "per_shard_cases": True}],
         "rule": "cases = threaded runs (child process under a 30 s watchdog) with (4,3), (2,4), (6,2), (1,5) reader/writer threads for 600 ms each: writers read the current stamp in a session, write a fresh stamp to 9 stamp keys spread over several root children (plus private churn; every fifth stamp is an overflow value) and commit blocking / non-blocking (retrying while deferred) / as overlay; readers open sessions of random lifetime, read all stamp keys 1-4 times and prove a third of them. Oracles: one session never sees two stamps; every proof verifies against the session's own base root and confirms the value read; the successful commits form a chain from the final stamp back to the initial state (each winner's base stamp is the previous winner's stamp; every reported success is on the chain); the final state is not torn; no thread panics; the run terminates. distinct & non-trivial = completed runs.",
         "trusted_base": ["lock protocol LTS Api/Locks.lean is a hand-written abstraction of access_lock / shared root check in nomt/src/lib.rs", "the OS scheduler decides which interleavings the stress run exhibits"],
         "assumptions": ["schedules are sampled, not enumerated (no yield-point hook installed)", "rollbacks are not part of the stamp-chain stress (they take the same write guard; exercised single-threaded by C09)"],
